@@ -37,6 +37,7 @@ type tierCfg struct {
 }
 
 type propCfg struct {
+	Stmt   bool // statement-level yields
 	Level  string
 	Quick  tierCfg
 	Thor   tierCfg
@@ -162,7 +163,7 @@ func treeFingerprint() string {
 }
 
 // prepareScratch copies the tree, instruments it and overlays the harness.
-func prepareScratch() string {
+func prepareScratch(stmt bool) string {
 	base := os.Getenv("VERIF_SCRATCH_BASE")
 	if base == "" {
 		base = os.TempDir()
@@ -182,12 +183,28 @@ func prepareScratch() string {
 	// instrument
 	rw := filepath.Join(verifDir, "bin", "rewrite")
 	if _, err := os.Stat(rw); err == nil {
-		out, err := run(dir, goEnv(), rw, "-dir", dir)
+		args := []string{"-dir", dir}
+		if stmt {
+			args = append(args, "-stmt")
+		}
+		out, err := run(dir, goEnv(), rw, args...)
 		if err != nil {
 			os.RemoveAll(dir)
 			die2("instrumenter failed (tree does not type-check?): %v\n%s", err, out)
 		}
 	}
+	// white-box harness files inside gmsm packages (optional: dropped if the tree no longer builds with them)
+	inpkg := filepath.Join(verifDir, "harness", "inpkg")
+	filepath.Walk(inpkg, func(path string, info os.FileInfo, err error) error {
+		if err != nil || info.IsDir() || !strings.HasSuffix(path, ".go") {
+			return nil
+		}
+		rel, _ := filepath.Rel(inpkg, path)
+		b, _ := os.ReadFile(path)
+		os.WriteFile(filepath.Join(dir, rel), b, 0644)
+		return nil
+	})
+	os.RemoveAll(filepath.Join(dir, "verifsim", "inpkg"))
 	// extra requirements of the harness
 	extra := filepath.Join(verifDir, "harness", "extra_requires.txt")
 	if b, err := os.ReadFile(extra); err == nil {
@@ -219,6 +236,27 @@ func buildWorker(dir string, race bool) string {
 	}
 	args = append(args, "./verifsim/worker")
 	o, err := run(dir, goEnv(), "go", args...)
+	if err != nil {
+		// retry without the white-box files (an edited tree may have renamed what they touch)
+		removed := false
+		inpkg := filepath.Join(verifDir, "harness", "inpkg")
+		filepath.Walk(inpkg, func(path string, info os.FileInfo, e error) error {
+			if e != nil || info.IsDir() || !strings.HasSuffix(path, ".go") {
+				return nil
+			}
+			rel, _ := filepath.Rel(inpkg, path)
+			if os.Remove(filepath.Join(dir, rel)) == nil {
+				removed = true
+			}
+			return nil
+		})
+		if removed {
+			o, err = run(dir, goEnv(), "go", args...)
+			if err == nil {
+				fmt.Println("NOTE white-box harness files dropped: the tree does not build with them")
+			}
+		}
+	}
 	if err != nil {
 		os.RemoveAll(dir)
 		die2("build failed:\n%s", o)
@@ -263,7 +301,7 @@ func runWorkers(bin, dir, prop string, seed uint64, runs uint64, tc tierCfg, W i
 			if race {
 				rl := filepath.Join(dir, fmt.Sprintf("racelog-%d", w))
 				args = append(args, "-racelog", rl)
-				env = append(env, "GORACE=halt_on_error=0 log_path="+rl+" history_size=3")
+				env = append(env, "GORACE=halt_on_error=0 exitcode=0 suppress_equal_stacks=0 suppress_equal_addresses=0 log_path="+rl+" history_size=3")
 			}
 			cmd := exec.Command(bin, args...)
 			cmd.Env = env
@@ -279,6 +317,9 @@ func runWorkers(bin, dir, prop string, seed uint64, runs uint64, tc tierCfg, W i
 			}
 			mu.Lock()
 			defer mu.Unlock()
+			if wd, e := os.ReadFile(outf + ".watchdog"); e == nil {
+				r.HarnessErrs = append(r.HarnessErrs, string(wd))
+			}
 			if err != nil || !r.Done {
 				p, _ := os.ReadFile(prog)
 				tail := so.String()
@@ -315,7 +356,7 @@ func replayOnce(bin, dir string, race bool, family string, run uint64, choices [
 	if race {
 		rl := filepath.Join(dir, "racelog-"+tag)
 		args = append(args, "-racelog", rl)
-		env = append(env, "GORACE=halt_on_error=0 log_path="+rl+" history_size=3")
+		env = append(env, "GORACE=halt_on_error=0 exitcode=0 suppress_equal_stacks=0 suppress_equal_addresses=0 log_path="+rl+" history_size=3")
 		defer func() {
 			m, _ := filepath.Glob(rl + ".*")
 			for _, f := range m {
@@ -659,7 +700,7 @@ func cmdCheck(prop, tier string) int {
 	fmt.Printf("SEED %d property=%s tier=%s\n", seed, prop, tier)
 	start := time.Now()
 	W := workersN()
-	dir := prepareScratch()
+	dir := prepareScratch(pc.Stmt)
 	defer os.RemoveAll(dir)
 	tree := treeFingerprint()
 	binPlain := buildWorker(dir, false)
@@ -911,7 +952,7 @@ func cmdReplay(prop, path string) int {
 	if err := json.Unmarshal(b, &rf); err != nil {
 		die2("replay: %v", err)
 	}
-	dir := prepareScratch()
+	dir := prepareScratch(props[prop].Stmt)
 	defer os.RemoveAll(dir)
 	race := rf.Build == "race"
 	bin := buildWorker(dir, race)
@@ -959,7 +1000,7 @@ func cmdDeterminism(args []string) int {
 		}
 	}
 	seed := seedFromEnv()
-	dir := prepareScratch()
+	dir := prepareScratch(pc.Stmt)
 	defer os.RemoveAll(dir)
 	bins := []string{buildWorker(dir, false)}
 	races := []bool{false}
